@@ -1200,7 +1200,13 @@ const COLORS: [RGBA; 16] = [
     RGBA::new(255, 255, 255, 255),
 ];
 
-fn sgr_color<'a>(mut cmds: impl Iterator<Item = &'a [u8]>) -> Option<RGBA> {
+/// Decode color that follows SGR `38`, `48` or `58`
+///
+/// `color_space` is set for the colon separated form (ISO-8613-6) where true color
+/// can carry an optional color space identifier `2:[<color_space>]:<r>:<g>:<b>`,
+/// semicolon separated form is always `2;<r>;<g>;<b>` and must not consume
+/// parameters that follow it.
+fn sgr_color<'a>(mut cmds: impl Iterator<Item = &'a [u8]>, color_space: bool) -> Option<RGBA> {
     match number_decode(cmds.next()?)? {
         5 => {
             // color from 256 color palette
@@ -1224,15 +1230,15 @@ fn sgr_color<'a>(mut cmds: impl Iterator<Item = &'a [u8]>) -> Option<RGBA> {
         }
         2 => {
             // true color
-            //
+            let mut component = || cmds.next().and_then(number_decode);
+            if !color_space {
+                // exactly three components
+                let (r, g, b) = (component()?, component()?, component()?);
+                return Some(RGBA::new(r as u8, g as u8, b as u8, 255));
+            }
             // It can contain either three or four components
             // in the case of four first component is ignored
-            match [
-                cmds.next().and_then(number_decode),
-                cmds.next().and_then(number_decode),
-                cmds.next().and_then(number_decode),
-                cmds.next().and_then(number_decode),
-            ] {
+            match [component(), component(), component(), component()] {
                 [Some(r), Some(g), Some(b), None] | [_, Some(r), Some(g), Some(b)] => {
                     // components that do not fit into a byte are not a valid color
                     Some(RGBA::new(
@@ -1259,9 +1265,9 @@ fn sgr_face(data: &[u8]) -> FaceModify {
         let args_empty = args.size_hint().0 == 0;
         let mut sgr_color_thunk = || {
             if args_empty {
-                sgr_color(&mut groups)
+                sgr_color(&mut groups, false)
             } else {
-                sgr_color(&mut args)
+                sgr_color(&mut args, true)
             }
         };
         match cmd {
